@@ -407,16 +407,42 @@ def validate_traces(module: str, traces: list, *, cfg: str | None = None, header
 # --------------------------------------------------------------------------------------------
 # running the implementation in parallel
 # --------------------------------------------------------------------------------------------
-def pmap(fn, items, procs: int = NPROC, chunk: int = 64):
+class _CallTimeout(BaseException):
+    pass
+
+
+def _alarm(signum, frame):
+    raise _CallTimeout()
+
+
+def _guarded(fn, limit, x):
+    """One library-driving call under a wall-clock limit: a call that does not come back is reported as a
+    machinery failure of THIS check (non-termination itself is C01's subject and is judged there)."""
+    import signal
+
+    signal.signal(signal.SIGALRM, _alarm)
+    signal.setitimer(signal.ITIMER_REAL, limit)
+    try:
+        return fn(x)
+    except _CallTimeout:
+        raise MachineryError(f"{fn.__module__}.{fn.__name__} did not return within {limit}s on {str(x)[:300]!r} "
+                             f"(a hang of the library is decided by ./check C01)") from None
+    finally:
+        signal.setitimer(signal.ITIMER_REAL, 0)
+
+
+def pmap(fn, items, procs: int = NPROC, chunk: int = 64, limit: float = 120.0):
     """Map fn over items in forked worker processes (fn must be a module-level function)."""
+    import functools
     import multiprocessing as mp
 
     items = list(items)
+    g = functools.partial(_guarded, fn, limit) if limit else fn
     if len(items) < 2 * chunk or procs <= 1:
-        return [fn(x) for x in items]
+        return [g(x) for x in items]
     ctx = mp.get_context("fork")
     with ctx.Pool(procs) as pool:
-        return pool.map(fn, items, chunksize=chunk)
+        return pool.map(g, items, chunksize=chunk)
 
 
 # --------------------------------------------------------------------------------------------
